@@ -18,10 +18,11 @@ git apply /tmp/try_seed_$ID.patch; rm -f /tmp/try_seed_$ID.patch
 echo "tests with change: $T1 | demo with change: exit $D1 | demo without: exit $D0"
 RES=""
 for P in "$@"; do
-  L=$(cd /verif && VERIF_REPO=$W ./check $P 2>&1 | grep -v conda | grep -E "^\[|VIOLATION" | tr '\n' ' ')
+  L=$(cd /verif && VERIF_BUILD=/tmp/vbuild_try_$ID VERIF_REPO=$W ./check $P 2>&1 | grep -v conda | grep -E "^\[|VIOLATION" | tr '\n' ' ')
   echo "check $P: $L"
   RES="$RES $P: $L ;"
 done
+rm -rf /tmp/vbuild_try_$ID
 python3 - "$ID" "$T1" "$D1" "$D0" "$RES" "$@" <<'PY'
 import json,sys
 id_,t1,d1,d0,res=sys.argv[1:6]; props=sys.argv[6:]
